@@ -48,3 +48,9 @@ add("C01",
     "Every front-end pass, the back end, the runtime and g++ are in the loop against an oracle that shares no code with them; ~50 modules x ~100 views (quick) to ~650 x ~150 (thorough). Finds wrong offsets/conditions/decodes/size/Ok logic on the explored shapes; says nothing about shapes the generator does not emit (listed in DESIGN §4 C01).",
     "Trusts: embref as an encoding of the documentation (every disagreement is triaged, DESIGN §3); g++ 12 on x86-64; arrays on truncated buffers are a recorded known finding.",
     "DESIGN.md §4 C01")
+
+add("C13",
+    "type-directed property-based testing: a typed expression generator fills every position that demands a type in a base module that must be accepted; single-rule violations (sub-expression or positional expression replaced by one of another type) must be rejected with a located, non-synthetic error and no exception",
+    "~400 (quick) to ~10^4 (thorough) well-typed bases and ~3 violations each over all typed positions and operator nestings to depth 4; finds dropped or mis-applied typing rules, crashes on ill-typed input and wrongly rejected well-typed input on the explored template; the catalogue is the one in DESIGN §4 C13.",
+    "Trusts: my reading of the operator signatures in language-reference.md; small magnitudes so no other rule interferes; `<` on same-enum operands and same-enum enum values are treated as allowed (pinned by upstream unit tests).",
+    "DESIGN.md §4 C13")
